@@ -107,7 +107,10 @@ class Renderer(object):
         self.parts.append(text)
         self.at_line_start = False
         self.line_has_token = True
-        return self.line
+        first = self.line
+        # a verbatim token may itself span lines (a quoted string with line breaks in it): what follows it is further down
+        self.line += text.replace("\r\n", "\n").replace("\r", "\n").count("\n")
+        return first
 
     # ---- values ----------------------------------------------------------------------------
     def string(self, s):
